@@ -55,6 +55,13 @@ def run_impl(ops):
     for op in ops:
         if op[0] == "enq":
             stack.txPkts.append((Pkt(op[1]), op[2]))
+        elif op[0] == "once":
+            h.oracle = [bool(op[1])]
+            if op[2]:
+                stack.serviceAllTxOnce()
+            else:
+                stack.serviceTxPktsOnce()
+            h.oracle = []
         else:
             h.oracle = list(op[1])
             stack.serviceTxPkts()
@@ -79,6 +86,8 @@ def c_ops(ops):
     for op in ops:
         if op[0] == "enq":
             out.append("Enq (%s, %s)" % (cz(op[1]), cz(op[2])))
+        elif op[0] == "once":
+            out.append("Once %s" % cbool(op[1]))
         else:
             out.append("Service %s" % clist([cbool(b) for b in op[1]], "bool"))
     return clist(out, "op")
@@ -136,19 +145,32 @@ def run(ctx):
     for _ in range(ctx.n(300, 3000)):
         ops, pid = [], 0
         for _ in range(ctx.rng.randint(3, 25)):
-            if ctx.rng.random() < 0.6:
+            x = ctx.rng.random()
+            if x < 0.5:
                 pid += 1
                 ops.append(("enq", pid, 10 * ctx.rng.randint(1, 4)))
+            elif x < 0.7:
+                ops.append(("once", ctx.rng.random() < 0.5, ctx.rng.random() < 0.5))
             else:
                 ops.append(("svc", [ctx.rng.random() < 0.35 for _ in range(ctx.rng.randint(0, 8))]))
         ops.append(("svc", []))
         rnd.append(ops)
 
+    # 3. exhaustive small histories of the single-shot entry points: up to 3 packets over 2 destinations,
+    #    every fail/success pattern of up to 4 single-shot calls, then a clean full pass
+    for n in range(1, 4):
+        for dests in itertools.product((10, 20), repeat=n):
+            for k in range(1, 5):
+                for pat in itertools.product((False, True), repeat=k):
+                    for allx in (False, True):
+                        rnd.append([("enq", i + 1, d) for i, d in enumerate(dests)] +
+                                   [("once", f, allx) for f in pat] + [("svc", [])])
+
     cases, metas = [], []
 
     def add(ops):
         log, q = run_impl(ops)
-        nfail = sum(sum(o[1]) for o in ops if o[0] == "svc")
+        nfail = sum(sum(o[1]) for o in ops if o[0] == "svc") + sum(1 for o in ops if o[0] == "once" and o[1])
         ctx.case({"ops": ops, "log": log, "queue": q},
                  nontrivial=nfail > 0 and sum(1 for o in ops if o[0] == "enq") >= 2,
                  kind="fails=%d" % min(nfail, 4))
@@ -192,7 +214,7 @@ def run(ctx):
                 if best is None or len(ops) < len(best["ops"]):
                     best = {"ops": ops, "impl_sent_log": log, "impl_queue": q, "why": why,
                             "contradicts": "C35.Props.per_dest_order_and_once",
-                            "key": "gram-tx-order"}
+                            "key": "gram-once-reorders" if any(o[0] == "once" for o in ops) else "gram-tx-order"}
         return best
 
     ctx.settle(search)
